@@ -29,8 +29,9 @@ func init() {
 }
 
 type bsEngine struct {
-	dir string
-	bs  *storethehash.HashedBlockstore
+	dir  string
+	bs   *storethehash.HashedBlockstore
+	opts []store.Option
 	// expected contents (multihash -> bytes, first Put wins), used only to tell the model whether the
 	// stored bytes hash to the requested CID: the real Sum is the instance of the model's hash parameter.
 	stored map[string][]byte
@@ -98,9 +99,9 @@ func (e *bsEngine) Exec(op *Op) string {
 		bits, _ := strconv.Atoi(op.Arg("bits"))
 		ifs, _ := strconv.Atoi(op.Arg("ifs"))
 		pfs, _ := strconv.Atoi(op.Arg("pfs"))
-		bs, err := storethehash.OpenHashedBlockstore(context.Background(), filepath.Join(e.dir, "storethehash.index"), filepath.Join(e.dir, "storethehash.data"),
-			store.IndexBitSize(uint8(bits)), store.IndexFileSize(uint32(ifs)), store.PrimaryFileSize(uint32(pfs)),
-			store.GCInterval(0), store.SyncInterval(time.Hour))
+		e.opts = []store.Option{store.IndexBitSize(uint8(bits)), store.IndexFileSize(uint32(ifs)), store.PrimaryFileSize(uint32(pfs)),
+			store.GCInterval(0), store.SyncInterval(time.Hour)}
+		bs, err := storethehash.OpenHashedBlockstore(context.Background(), filepath.Join(e.dir, "storethehash.index"), filepath.Join(e.dir, "storethehash.data"), e.opts...)
 		if err != nil {
 			return "err:other"
 		}
@@ -108,6 +109,20 @@ func (e *bsEngine) Exec(op *Op) string {
 		if e.stored == nil {
 			e.stored = map[string][]byte{}
 		}
+		return "ok"
+	case "bsreopen":
+		// Close the blockstore (its store flushes) and open it again on the same directory, with or without the bucket snapshot:
+		// the contract speaks about the blockstore, not about one process's handle on it
+		e.bs.Close()
+		e.bs = nil
+		if op.Arg("snap") == "0" {
+			os.Remove(filepath.Join(e.dir, "storethehash.index.buckets"))
+		}
+		bs, err := storethehash.OpenHashedBlockstore(context.Background(), filepath.Join(e.dir, "storethehash.index"), filepath.Join(e.dir, "storethehash.data"), e.opts...)
+		if err != nil {
+			return "err:other"
+		}
+		e.bs = bs
 		return "ok"
 	case "bsput":
 		c, d, err := parseBlock(op.Arg("c"), op.Arg("d"))
@@ -370,7 +385,7 @@ func (g *bsGen) Next(r *RNG, hist []Op) (Op, bool) {
 		}
 		return "0"
 	}
-	switch r.Pick(30, 8, 25, 8, 8, 8, 5, 1) {
+	switch r.Pick(30, 8, 25, 8, 8, 8, 5, 1, 5) {
 	case 0:
 		b := g.blocks[r.Intn(len(g.blocks))]
 		ctx := g.ctxArg(r)
@@ -413,6 +428,14 @@ func (g *bsGen) Next(r *RNG, hist []Op) (Op, bool) {
 		return mkOp("bsdel", "c", hx(c.Bytes()), "ctx", ctx), true
 	case 6:
 		return mkOp("bshashonread", "v", strconv.Itoa(r.Intn(2))), true
+	case 8:
+		// everything stored or deleted so far must read the same through a new handle
+		for _, b := range g.blocks {
+			if r.Bool(60) {
+				g.pending = append(g.pending, mkOp("bshas", "c", hx(b.c.Bytes()), "ctx", "live"), mkOp("bsget", "c", hx(b.c.Bytes()), "ctx", "live", "hm", hm(b.c)))
+			}
+		}
+		return mkOp("bsreopen", "snap", strconv.Itoa(r.Intn(2))), true
 	default:
 		return mkOp("bsallkeys"), true
 	}
